@@ -75,4 +75,81 @@ theorem window_month_shape_agg {q : Int} {init : Date} (hv : init.valid = true)
   rw [iterD_month_monthEnd q (k + 1) init hv he, iterD_month_monthEnd q k init hv he]
   exact ⟨by push_cast; rfl, rfl⟩
 
+/-! ### day windows: the lexicographic date order is the order of ordinals -/
+
+theorem daysBeforeMonth_mono_agg (y : Int) {m m' : Nat} (h1 : 1 ≤ m) (h : m ≤ m') :
+    daysBeforeMonth y m ≤ daysBeforeMonth y m' := by
+  induction m', h using Nat.le_induction with
+  | base => exact Nat.le_refl _
+  | succ n hn ih =>
+    rw [daysBeforeMonth_succ y n (by omega)]
+    omega
+
+theorem daysBeforeYear_mono_agg {y y' : Int} (h : y ≤ y') : daysBeforeYear y ≤ daysBeforeYear y' := by
+  unfold daysBeforeYear; simp only; omega
+
+theorem ordinal_lt_of_lt_agg {a b : Date} (ha : a.valid = true) (hb : b.valid = true) (h : a < b) :
+    a.ordinal < b.ordinal := by
+  rw [valid_iff] at ha hb
+  rw [Date.lt_iff_agg] at h
+  unfold Date.ordinal
+  rcases h with h | ⟨hy, h | ⟨hm, hd⟩⟩
+  · -- earlier year
+    have h1 : (daysBeforeMonth a.y a.m : Int) + a.d ≤ daysBeforeMonth a.y 13 := by
+      have := daysBeforeMonth_succ a.y a.m ha.1
+      have := daysBeforeMonth_mono_agg a.y (m := a.m + 1) (m' := 13) (by omega) (by omega)
+      omega
+    rw [daysBeforeMonth_thirteen] at h1
+    have h2 := daysBeforeYear_succ' a.y
+    have h3 := daysBeforeYear_mono_agg (y := a.y + 1) (y' := b.y) (by omega)
+    omega
+  · -- same year, earlier month
+    rw [hy]
+    have := daysBeforeMonth_succ b.y a.m ha.1
+    have := daysBeforeMonth_mono_agg b.y (m := a.m + 1) (m' := b.m) (by omega) (by omega)
+    rw [hy] at ha
+    omega
+  · rw [hy, hm]; omega
+
+/-- for valid dates: not later in ordinal ⇒ not later in the date order -/
+theorem not_lt_of_ordinal_le_agg {a b : Date} (ha : a.valid = true) (hb : b.valid = true)
+    (h : a.ordinal ≤ b.ordinal) : ¬ b < a := by
+  intro hlt
+  have := ordinal_lt_of_lt_agg hb ha hlt
+  omega
+
+theorem resolutionDelta_day_agg (d : Date) (q : Int) : resolutionDelta d q .day = d.addDays q := by
+  simp [resolutionDelta]
+
+/-- grid point `k` in day units: valid, `k·q` days after the anchor (inside `date.min … date.max`) -/
+theorem iterD_day_agg (q : Int) (hq : 0 ≤ q) (k : Nat) (init : Date) (h1 : 1 ≤ init.ordinal)
+    (h2 : init.ordinal + (k : Int) * q ≤ 3652059) (hv : init.valid = true) :
+    (iterD q .day k init).valid = true ∧ (iterD q .day k init).ordinal = init.ordinal + (k : Int) * q := by
+  induction k generalizing init with
+  | zero => simp [iterD, hv]
+  | succ k ih =>
+    have hk : (0 : Int) ≤ (k : Int) * q := Int.mul_nonneg (by omega) hq
+    have e : ((k + 1 : Nat) : Int) * q = (k : Int) * q + q := by push_cast; ring
+    rw [e] at h2
+    obtain ⟨hv', ho'⟩ := addDays_ordinal init q (by omega) (by omega)
+    rw [iterD, resolutionDelta_day_agg]
+    obtain ⟨a, b⟩ := ih (init.addDays q) (by omega) (by rw [ho']; omega) hv'
+    exact ⟨a, by rw [b, ho', e]; omega⟩
+
+/-- **day windows are disjoint and ordered** (positive quantity, dates inside `date.min … date.max`) -/
+theorem window_disjoint_day_agg {q : Int} {init : Date} (hq : 1 ≤ q) (hv : init.valid = true)
+    (h1 : 1 ≤ init.ordinal) {j k : Nat} (hjk : j < k)
+    (h2 : init.ordinal + (k : Int) * q ≤ 3652059) :
+    (windowAt q .day init j).2 < (windowAt q .day init k).1 := by
+  simp only [windowAt]
+  have hle : ((j + 1 : Nat) : Int) * q ≤ (k : Int) * q :=
+    Int.mul_le_mul_of_nonneg_right (by exact_mod_cast hjk) (by omega)
+  obtain ⟨va, oa⟩ := iterD_day_agg q (by omega) (j + 1) init h1 (by omega) hv
+  obtain ⟨vb, ob⟩ := iterD_day_agg q (by omega) k init h1 h2 hv
+  have hn := not_lt_of_ordinal_le_agg va vb (by rw [oa, ob]; omega)
+  have hs := Date.lt_succ_agg (iterD q .day k init)
+  rw [Date.lt_iff_agg] at *
+  omega
+
+
 end Bermuda
